@@ -47,6 +47,8 @@ class PbModel:
         if f["map"]:
             return z3.ArraySort(Int, SetSort) if key.endswith("#dom") else z3.ArraySort(Int, z3.ArraySort(Val, Val))
         if f["label"] == "repeated":
+            if key.endswith("#set"):
+                return z3.ArraySort(Int, SetSort)
             return z3.ArraySort(Int, z3.ArraySort(Int, Val)) if key.endswith("#items") else z3.ArraySort(Int, Int)
         return z3.ArraySort(Int, Val)
 
@@ -54,7 +56,7 @@ class PbModel:
         out = []
         for f in self.msgs[msg]["fields"]:
             k = self.key(msg, f["name"])
-            out += [k + "#dom", k + "#map"] if f["map"] else ([k + "#items", k + "#len"] if f["label"] == "repeated" else [k])
+            out += [k + "#dom", k + "#map"] if f["map"] else ([k + "#items", k + "#len", k + "#set"] if f["label"] == "repeated" else [k])
         return out + [self.key(msg, "$oneof." + o) for o in self.msgs[msg]["oneofs"]]
 
     def default(self, f):
@@ -80,6 +82,7 @@ class PbModel:
                 st.heap[k + "#map"] = z3.Store(eng.field_array(st, k + "#map"), r, z3.K(Val, VNone))
             elif f["label"] == "repeated":
                 st.heap[k + "#len"] = z3.Store(eng.field_array(st, k + "#len"), r, 0)
+                st.heap[k + "#set"] = z3.Store(eng.field_array(st, k + "#set"), r, EmptySet)
             else:
                 st.heap[k] = z3.Store(eng.field_array(st, k), r, self.default(f))
         for o in self.msgs[msg]["oneofs"]:
@@ -157,6 +160,26 @@ class PbModel:
 
     # ---- methods
     def method(self, eng, obj, name, args, kwargs, st):
+        if obj.k == "pbrep":
+            r, msg, attr = obj.x
+            if name == "extend" and len(args) == 1:
+                # repeated scalar field filled from an iterable: the *set* of its elements is modelled (order and
+                # multiplicity are not), which is what the contracts of the writers state
+                f = self.fdef(msg, attr)
+                if self.is_msg(f["type"]):
+                    raise Unsupported("extend of a repeated message field")
+                bags = eng.bags_of(args[0], st)
+                add = eng.set_of_bags(bags, st).t
+                k = self.key(msg, attr) + "#set"
+                old = z3.Select(eng.field_array(st, k), r)
+                new = fresh("rep", SetSort)
+                x = fresh("x", Val)
+                st.define(z3.ForAll([x], z3.Select(new, x) == z3.Or(z3.Select(old, x), z3.Select(add, x))))
+                st.heap[k] = z3.Store(eng.field_array(st, k), r, new)
+                kl = self.key(msg, attr) + "#len"
+                st.heap[kl] = z3.Store(eng.field_array(st, kl), r, fresh("replen", Int))
+                return sv_none()
+            raise Unsupported("repeated field method " + name)
         if obj.k == "pbsub":
             r, msg, attr, t = obj.x
             if name == "CopyFrom":
